@@ -41,24 +41,30 @@ theorem doFetch_numeric (cfg : Cfg) (s : St) (h1 : s.requestD = .none) (h2 : s.f
   simp only [h1]
   cases hr : s.retryCall <;> simp [h2, h3, h4]
 
-theorem offsetErrorTail_pres (cfg : Cfg) (f : Fail) : Pres cfg (offsetErrorTail cfg f) := by
+theorem commitResult_nts (cfg : Cfg) (w : Who) (s : St) (f : Fail) (h : commitResult cfg w s = some (.err f)) : f ≠ .tooSmall := by
+  unfold commitResult at h
+  repeat' split at h
+  all_goals (cases h)
+  all_goals (intro h'; cases h')
+
+theorem offsetErrorTail_pres (cfg : Cfg) (f : Fail) (hf : f ≠ .tooSmall) : Pres cfg (offsetErrorTail cfg f) := by
   intro s hs
   have hx := Good.refl hs
   unfold offsetErrorTail
   repeat' split
   all_goals first
     | exact hx
-    | exact (startErrback_pres cfg f).step hx
+    | exact (startErrback_pres cfg f hf).step hx
     | exact (retryFetch_pres cfg none).step hx
 
 /-- `_handle_offset_error` for a request that is no longer counted as outstanding (cancelled) -/
-theorem handleOffsetError_good (cfg : Cfg) (f : Fail) {s0 s : St} (hx : Good cfg s0 s) (hq : activeReq s.requestD = none)
+theorem handleOffsetError_good (cfg : Cfg) (f : Fail) (hf : f ≠ .tooSmall) {s0 s : St} (hx : Good cfg s0 s) (hq : activeReq s.requestD = none)
     (hpk : s.parked = none) :
     Good cfg s0 (handleOffsetError cfg f s) := by
   unfold handleOffsetError
-  exact (offsetErrorTail_pres cfg f).step (by leaf hx)
+  exact (offsetErrorTail_pres cfg f hf).step (by leaf hx)
 
-theorem fetchErrorTail_good (cfg : Cfg) (f : Fail) {s0 s : St} (hx : Good cfg s0 s)
+theorem fetchErrorTail_good (cfg : Cfg) (f : Fail) (hf : f ≠ .tooSmall) {s0 s : St} (hx : Good cfg s0 s)
     (ha : EnvHyp.sane → f.isOutOfRange = true → cfg.reset.isSome = true → Armed cfg s) :
     Good cfg s0 (fetchErrorTail cfg f s) := by
   unfold Armed at ha
@@ -67,7 +73,7 @@ theorem fetchErrorTail_good (cfg : Cfg) (f : Fail) {s0 s : St} (hx : Good cfg s0
   split
   · exact hx
   · split
-    · exact (startErrback_pres cfg f).step hx
+    · exact (startErrback_pres cfg f hf).step hx
     · rename_i hnr
       have h1 : Good cfg s0 (if f.isOutOfRange then { s with fetchOffset := cfg.reset.getD s.fetchOffset } else s) := by
         split
@@ -83,15 +89,15 @@ theorem fetchErrorTail_good (cfg : Cfg) (f : Fail) {s0 s : St} (hx : Good cfg s0
       repeat' split
       all_goals first
         | exact h1
-        | exact (startErrback_pres cfg f).step h1
+        | exact (startErrback_pres cfg f hf).step h1
         | exact (retryFetch_pres cfg none).step h1
 
 /-- `_handle_fetch_error` for a request that is no longer counted as outstanding -/
-theorem handleFetchError_good (cfg : Cfg) (f : Fail) {s0 s : St} (hx : Good cfg s0 s) (hq : activeReq s.requestD = none)
+theorem handleFetchError_good (cfg : Cfg) (f : Fail) (hf : f ≠ .tooSmall) {s0 s : St} (hx : Good cfg s0 s) (hq : activeReq s.requestD = none)
     (hpk : s.parked = none) (ha : EnvHyp.sane → f.isOutOfRange = true → cfg.reset.isSome = true → Armed cfg s) :
     Good cfg s0 (handleFetchError cfg f s) := by
   unfold handleFetchError
-  exact fetchErrorTail_good cfg f (by leaf hx) ha
+  exact fetchErrorTail_good cfg f hf (by leaf hx) ha
 
 /-- `commit()` -/
 theorem commitState_pres (cfg : Cfg) (w : Who) : Pres cfg (commitState cfg w) := by
@@ -114,7 +120,11 @@ theorem autoCommit_pres (cfg : Cfg) (b : Bool) : Pres cfg (autoCommit cfg b) := 
   unfold autoCommit
   simp only []
   repeat' split
-  all_goals first | exact hx | exact hc | exact (handleAutoCommitError_pres cfg _).step hc | leaf hx
+  all_goals first
+    | exact hx
+    | exact hc
+    | exact (handleAutoCommitError_pres cfg _ (commitResult_nts cfg .auto s _ (by assumption))).step hc
+    | leaf hx
 
 theorem commitUser_pres (cfg : Cfg) : Pres cfg (commitUser cfg) := by
   intro s hs
